@@ -1,19 +1,61 @@
-(* Executable comparison helpers used by the C08 correspondence (harness/c08.py). *)
-From Coq Require Import ZArith QArith Qabs List Bool.
+(* Executable comparison helpers used by the C08 / C09 correspondences (harness/c08.py, harness/c09.py).
+   Case files carry their numbers as primitive 63-bit integers (literals that Coq parses in constant time; a
+   decimal Z literal costs ~0.4 ms to elaborate, which dominated the run time of the case files) and as
+   run-length encoded lists; everything is decoded here into the Z / Q data the models work on. *)
+From Coq Require Import ZArith QArith Qabs List Bool Uint63.
 From V Require Import Model.CasesLib Model.Resample.
 Import ListNotations.
 Open Scope Z_scope.
 
-(* compact encoding of a regular sub-daily / daily series: slot i is stamped t0 + i*step *)
-Inductive slot := V (n : Z) | NaN | Absent.
+(* ------------------------------------------------------------------------------------------------ *)
+(* decoding                                                                                          *)
+(* ------------------------------------------------------------------------------------------------ *)
+
+Definition zi (i : int) : Z := Uint63.to_Z i.
+Definition pi (i : int) : positive := Z.to_pos (zi i).
+
+(* an optional rational: absent, numerator/denominator below 2^62, a negated one, or arbitrary *)
+Inductive qv := QN | QV (n d : int) | QM (n d : int) | QB (n : Z) (d : positive).
+Definition qv_to (q : qv) : option Q :=
+  match q with
+  | QN => None
+  | QV n d => Some (zi n # pi d)%Q
+  | QM n d => Some ((- zi n) # pi d)%Q
+  | QB n d => Some (n # d)%Q
+  end.
+
+(* readings given row by row *)
+Definition rds (l : list (int * qv)) : list reading := map (fun p => (zi (fst p), qv_to (snd p))) l.
+
+(* compact encoding of a regular series: slot i is stamped t0 + i*step *)
+Inductive slot := V (n : int) | NaN | Absent.
 
 Fixpoint grid_from (t : Z) (step : Z) (den : positive) (sl : list slot) : list reading :=
   match sl with
   | [] => []
-  | V n :: rest => (t, Some (n # den)%Q) :: grid_from (t + step) step den rest
+  | V n :: rest => (t, Some (zi n # den)%Q) :: grid_from (t + step) step den rest
   | NaN :: rest => (t, None) :: grid_from (t + step) step den rest
   | Absent :: rest => grid_from (t + step) step den rest
   end.
+Definition grid (t0 step den : int) (sl : list slot) : list reading := grid_from (zi t0) (zi step) (pi den) sl.
+
+(* local-day boundaries: the first one, then runs of (count, day length in minutes) *)
+Fixpoint steps (n : nat) (b len : Z) : list Z :=
+  match n with O => [] | S k => (b + len) :: steps k (b + len) len end.
+Fixpoint run_bounds (b : Z) (runs : list (int * int)) : list Z :=
+  match runs with
+  | [] => []
+  | (c, len) :: rest => steps (Z.to_nat (zi c)) b (zi len) ++ run_bounds (b + zi c * zi len) rest
+  end.
+Definition bounds (b0 : int) (runs : list (int * int)) : list Z := zi b0 :: run_bounds (zi b0) runs.
+
+(* run-length encoded list of optional values *)
+Definition vals (runs : list (int * qv)) : list (option Q) :=
+  flat_map (fun p => repeat (qv_to (snd p)) (Z.to_nat (zi (fst p)))) runs.
+
+(* ------------------------------------------------------------------------------------------------ *)
+(* comparison                                                                                        *)
+(* ------------------------------------------------------------------------------------------------ *)
 
 (* |a-b| <= 1e-9 * max(1,|a|,|b|) *)
 Definition qmax (a b : Q) : Q := if Qle_bool a b then b else a.
@@ -24,9 +66,6 @@ Definition oq_close (a b : option Q) : bool := opt_eqb q_close a b.
 
 Definition reading_close (a b : reading) : bool := (fst a =? fst b) && oq_close (snd a) (snd b).
 
-Definition drow_close (r : drow) (e : Z * option Q * Q) : bool :=
-  let '(lo, v, c) := e in (d_lo r =? lo) && oq_close (d_val r) v && q_close (d_cov r) c.
-
 Fixpoint list_eqb2 {A B} (f : A -> B -> bool) (a : list A) (b : list B) : bool :=
   match a, b with
   | [], [] => true
@@ -34,16 +73,29 @@ Fixpoint list_eqb2 {A B} (f : A -> B -> bool) (a : list A) (b : list B) : bool :
   | _, _ => false
   end.
 
-Definition check_asfreq (c : list reading * list Z * list (Z * option Q * Q)) : bool :=
-  let '(rs, bs, e) := c in list_eqb2 drow_close (as_freq_cum rs bs) e.
+(* the rows start at the bucket the implementation's first row is labelled with (the harness has checked that
+   the implementation's labels are consecutive entries of bs) *)
+Definition starts_at (rows : list drow) (first : int) : bool :=
+  match rows with [] => true | r :: _ => d_lo r =? zi first end.
 
-(* as_freq(..., "D") without coverage (the billing class' call) *)
-Definition check_asfreq_values (c : list reading * list Z * list (Z * option Q)) : bool :=
-  let '(rs, bs, e) := c in
-  list_eqb2 reading_close (map (fun r => (d_lo r, d_val r)) (as_freq_cum rs bs)) e.
+(* as_freq(series, "D", include_coverage=True): (value, coverage) per row *)
+Definition check_asfreq (c : list reading * list Z * int * list (qv * qv)) : bool :=
+  let '(rs, bs, first, e) := c in
+  let rows := as_freq_cum rs bs in
+  starts_at rows first &&
+  list_eqb2 (fun r x => oq_close (d_val r) (qv_to (fst x)) && oq_close (Some (d_cov r)) (qv_to (snd x))) rows e.
 
-Definition check_downsample (c : list reading * list Z * list (Z * option Q)) : bool :=
-  let '(rs, bs, e) := c in list_eqb2 reading_close (downsample_and_clean rs bs) e.
+(* as_freq(..., "D") without coverage (the billing class' call); expected values run-length encoded *)
+Definition check_asfreq_values (c : list reading * list Z * int * list (int * qv)) : bool :=
+  let '(rs, bs, first, e) := c in
+  let rows := as_freq_cum rs bs in
+  starts_at rows first && list_eqb2 oq_close (map d_val rows) (vals e).
+
+Definition check_downsample (c : list reading * list Z * int * list qv) : bool :=
+  let '(rs, bs, first, e) := c in
+  let rows := downsample_and_clean rs bs in
+  match rows with [] => true | r :: _ => fst r =? zi first end &&
+  list_eqb2 oq_close (map snd rows) (map qv_to e).
 
 Definition gran_eqb (a b : gran) : bool :=
   match a, b with
@@ -52,30 +104,36 @@ Definition gran_eqb (a b : gran) : bool :=
   | _, _ => false
   end.
 
-Definition check_granularity (c : inferred * list Z * gran * option gran) : bool :=
-  let '(inf, ts, dflt, e) := c in opt_eqb gran_eqb (granularity inf ts dflt) e.
+Definition check_granularity (c : inferred * list int * gran * option gran) : bool :=
+  let '(inf, ts, dflt, e) := c in opt_eqb gran_eqb (granularity inf (map zi ts) dflt) e.
 
-Definition class_close (a b : class_result) : bool :=
+(* what the harness observed of a data class: df['observed'] per local day (run-length encoded) or the error *)
+Inductive class_obs := ODays (runs : list (int * qv)) | OErrBilling | OErrType.
+
+Definition class_close (a : class_result) (b : class_obs) : bool :=
   match a, b with
-  | Days x, Days y => list_eqb2 oq_close x y
-  | ErrBilling, ErrBilling | ErrType, ErrType | Unsupported, Unsupported => true
+  | Days x, ODays y => list_eqb2 oq_close x (vals y)
+  | ErrBilling, OErrBilling | ErrType, OErrType => true
   | _, _ => false
   end.
 
-Definition check_daily_class (c : bool * inferred * list reading * list Z * class_result) : bool :=
+Definition check_daily_class (c : bool * inferred * list reading * list Z * class_obs) : bool :=
   let '(elec, inf, rows, bs, e) := c in class_close (daily_class elec inf rows bs) e.
 
-Definition check_billing_class (c : bool * inferred * list reading * list Z * class_result) : bool :=
+Definition check_billing_class (c : bool * inferred * list reading * list Z * class_obs) : bool :=
   let '(elec, inf, rows, bs, e) := c in class_close (billing_class elec inf rows bs) e.
 
 Definition check_clean_billing (c : gran * list reading * list reading) : bool :=
   let '(g, rs, e) := c in list_eqb2 reading_close (clean_billing g rs) e.
 
+Definition brows (l : list (int * qv * bool)) : list brow :=
+  map (fun p => (zi (fst (fst p)), qv_to (snd (fst p)), snd p)) l.
+
 Definition check_clean_billing_est (c : gran * list brow * option (list reading)) : bool :=
   let '(g, rows, e) := c in opt_eqb (list_eqb2 reading_close) (clean_billing_est g rows) e.
 
 (* lemma minute_grid_eq, executed: the literal 1-minute materialisation against the interval formula *)
-Definition check_grid (c : list reading * Z * Z) : bool :=
+Definition check_grid (c : list reading * int * int) : bool :=
   let '(rs, lo, hi) := c in
-  Qeq_bool (grid_bucket_sum rs lo hi) (bucket_sum lo hi (intervals rs)) &&
-  (grid_bucket_count rs lo hi =? bucket_count lo hi (intervals rs)).
+  Qeq_bool (grid_bucket_sum rs (zi lo) (zi hi)) (bucket_sum (zi lo) (zi hi) (intervals rs)) &&
+  (grid_bucket_count rs (zi lo) (zi hi) =? bucket_count (zi lo) (zi hi) (intervals rs)).
